@@ -13,6 +13,7 @@ import time
 
 from . import gen
 from . import mirsmt as M
+from . import mirstate
 from .mirsmt import V, bvc, Unsupported
 
 BV16 = "(_ BitVec 16)"
@@ -36,6 +37,11 @@ class Engine:
         self.fns = M.parse_mir(text)
         self.enums = M.parse_enums(repo)
         self.ctx = M.Ctx(repo, self.fns, self.enums)
+        for m in re.finditer(r"^const (\w+): (\w+) = const (\S+);$", text, re.M):
+            try:
+                self.ctx.named_consts[m.group(1)] = self.ctx.const(m.group(3))
+            except Unsupported:
+                pass
         self.keys = self.enums["KeyCode"]
         self.defs = []
         self.panic_queries = []
@@ -422,7 +428,34 @@ def build(repo, workdir, props):
             E.panic_queries.append(("panicfree_%s" % ty, ["false"], []))  # no panic terminator on any path
         for n, a, g in E.panic_queries:
             Q.append(("C08", n, a, g))
-    decls = common_decls(E.keys) + E.defs
+    extra_decls = []
+    stateful = props & {"C01", "C02", "C04", "C06", "C07", "C14"}
+    if stateful:
+        known = gen.load_known()
+        k_set1_full = set()
+        for f in known.get("findings", []):
+            if f.get("status") == "open":
+                for inp in f.get("inputs", []):
+                    if inp["kind"] == "set1_transition":
+                        k_set1_full.add((inp["ctx"], inp["byte"]))
+        extra_decls.append("(declare-const b (_ BitVec 8))")
+        for pid in sorted(stateful):
+            try:
+                if pid in ("C01", "C02", "C07"):
+                    Q += mirstate.scancode_queries(E, pid, k_set1_full)
+                elif pid == "C06":
+                    d, q = mirstate.frame_queries(E)
+                    extra_decls += d
+                    Q += q
+                else:
+                    d, q = mirstate.event_queries(E, pid)
+                    extra_decls += [x for x in d if x not in extra_decls]
+                    Q += q
+            except Unsupported as e:
+                E.functions.append("stateful part of %s not encoded on this tree: %s" % (pid, e))
+            except (IndexError, KeyError, AttributeError, TypeError, ValueError) as e:
+                E.functions.append("stateful part of %s not encoded on this tree: %r" % (pid, e))
+    decls = common_decls(E.keys) + extra_decls + E.defs
     return E, decls, Q
 
 
@@ -462,6 +495,7 @@ def run(repo, workdir, pid, mode="both"):
             q["model"] = {s: r[s][1][:300] for s in r if r[s][1]}
         out["queries"].append(q)
     out["verdict"] = verdict
+    out["not_encoded"] = [f for f in E.functions if "not encoded" in f]
     out["mode"] = "both solvers must agree" if mode == "both" else "first solver to answer every query"
     out["queries_discharged"] = sum(1 for q in out["queries"] if "unsat" in q["answers"].values() and not (set(q["answers"].values()) & {"sat", "error"}))
     return out
